@@ -207,6 +207,7 @@ type scheduler struct {
 	flushes    int
 	blockMs    int
 	freeMode   bool
+	hung       bool // free mode, and then no task moved for c13HangMs
 	holdKind   uint32
 	// PCT mode
 	pctPrio    []int
@@ -234,6 +235,10 @@ func (s *scheduler) freeRun(parked, done []bool) {
 			}
 		}
 		if all {
+			return
+		}
+		if !waitReadable(s.bp.reqR, c13HangMs) {
+			s.hung = true // nobody reached another point or finished for c13HangMs: blocked for good
 			return
 		}
 		rawRead(s.bp.reqR, &m)
